@@ -78,11 +78,16 @@ def sync_harness():
     """Mirror /verif/harness into the cache with a manifest that points at this cache's generated rwslib
     (so that several caches - one per scratch copy of the repository - can build side by side)."""
     dst = os.path.join(CACHE, "harness")
-    for dp, dns, fns in os.walk(os.path.join(HARNESS, "src")):
-        for n in fns:
-            src = os.path.join(dp, n)
-            rel = os.path.relpath(src, HARNESS)
-            _write_if_changed(os.path.join(dst, rel), open(src, "rb").read())
+    for sub in ("src", os.path.join("fuzz", "fuzz_targets")):
+        for dp, dns, fns in os.walk(os.path.join(HARNESS, sub)):
+            for n in fns:
+                src = os.path.join(dp, n)
+                rel = os.path.relpath(src, HARNESS)
+                _write_if_changed(os.path.join(dst, rel), open(src, "rb").read())
+    ftoml = open(os.path.join(HARNESS, "fuzz", "Cargo.toml")).read().replace('path = "../../.cache/rwslib"', 'path = "%s"' % os.path.join(CACHE, "rwslib"))
+    _write_if_changed(os.path.join(dst, "fuzz", "Cargo.toml"), ftoml.encode())
+    if os.path.exists(os.path.join(REPO, "Cargo.lock")) and not os.path.exists(os.path.join(dst, "fuzz", "Cargo.lock")):
+        pass
     toml = open(os.path.join(HARNESS, "Cargo.toml")).read().replace('path = "../.cache/rwslib"', 'path = "%s"' % os.path.join(CACHE, "rwslib"))
     _write_if_changed(os.path.join(dst, "Cargo.toml"), toml.encode())
     lock = os.path.join(REPO, "Cargo.lock")
@@ -118,6 +123,19 @@ def binary(lane="rel"):
         if rc != 0:
             raise BuildError("rws binary build failed (lane %s):\n%s" % (lane, out[-6000:]))
         return os.path.join(tdir, "release", "rws")
+
+
+def fuzz_build():
+    """cargo +nightly fuzz build (ASan + coverage instrumentation); returns (path to the fuzz binary, harness dir)"""
+    with _lock("build-fuzz"):
+        gen_rwslib()
+        hdir = sync_harness()
+        tdir = os.path.join(CACHE, "target", "fuzz")
+        cmd = ["cargo", "+nightly", "fuzz", "build", "parsers", "--target-dir", tdir]
+        rc, out = _run(cmd, env={"RUSTFLAGS": "--cfg rws_verif -Awarnings", "CARGO_NET_OFFLINE": "true"}, cwd=hdir, timeout=3600)
+        if rc != 0:
+            raise BuildError("fuzz build failed:\n%s" % out[-4000:])
+        return os.path.join(tdir, "x86_64-unknown-linux-gnu", "release", "parsers"), hdir
 
 
 def miri_cmd():
